@@ -102,3 +102,24 @@ impl DB {
         }
     }
 }
+
+/// A handle on an instance's guarded state that outlives the [`DB`] value itself, so a harness can
+/// ask whether a database that is being closed still has background work in flight.
+pub struct VerifProbe {
+    fields: std::sync::Arc<parking_lot::Mutex<super::GuardedDbFields>>,
+}
+
+impl VerifProbe {
+    /// True while a background compaction task is scheduled or running for the instance.
+    pub fn background_work_pending(&self) -> bool {
+        self.fields.lock().background_compaction_scheduled
+    }
+}
+
+impl DB {
+    pub fn verif_probe(&self) -> VerifProbe {
+        VerifProbe {
+            fields: Arc::clone(&self.guarded_fields),
+        }
+    }
+}
